@@ -816,6 +816,7 @@ func TestDriver(t *testing.T) {
 	}
 	// sampled complement: byte / field level mutations of honest encodings
 	mutations := mutationPass(rep, prop, &honestPool)
+	wideNamespacePass(t, rep, prop) // directed family: namespaces over many rows of wide squares (wide_test.go)
 
 	rep.Count("cases_replayed", st.cases.Load())
 	rep.Count("traces_validated_against_impl", st.cases.Load())
